@@ -41,4 +41,6 @@ def run(rep, fb, tier):
     _jr.rule_json_int_width(rep, fb)
     _l3.rule_child_accessor_bounds(rep, fb)
     _l3.rule_option_shortcut(rep, fb)
+    __import__("vf.rules.pyrules3", fromlist=["x"]).rule_py_recursion_keywords(rep)
+    __import__("vf.rules.binding2", fromlist=["x"]).rule_binding_call_roles(rep, fb)
     rep.units = fb.units
